@@ -277,6 +277,46 @@ def shard_main(shard, nshards, tier, scale):
                  [f"bad-length:{'zero' if v == 0 else 'lt20' if v < 20 else 'short' if v < real else 'long'}"],
                  sample=lambda: case)
     rec.extra["bad_length_jobs"] = len(ljobs)
+
+    # ---- the same property through a node's socket: recv(2048) boundaries + the I/O loop participate
+    from dv import world as W
+
+    @st.composite
+    def node_case(draw):
+        n = draw(st.integers(1, 6))
+        sizes = [draw(st.sampled_from([0, 0, 10, 1500, 2040, 2048, 3000, 6000])) for _ in range(n)]
+        total = sum(s_ + 220 for s_ in sizes)
+        cuts = sorted(set(draw(st.lists(st.integers(1, max(1, total)), max_size=10))))
+        return {"sizes": sizes, "cuts": cuts, "kind": "node-socket", "yield_all": draw(st.booleans()), "seed": draw(st.integers(0, 5))}
+
+    def nbody(case):
+        w = W.NodeWorld({"peers": [{"name": "peer1.example", "ip": ["10.1.1.1"]}],
+                         "apps": [{"app_id": 4, "auth": True, "peers": [0], "handler": "answer"}],
+                         "sched_seed": case["seed"], "yield_all": case["yield_all"],
+                         "node_timers": {"idle": 5000, "dwa": 50, "cer": 50, "cea": 50, "wakeup": 3}})
+        try:
+            w.start()
+            c = w.handshake_in("peer1.example", auth=[4])
+            frames = []
+            for i, sz in enumerate(case["sizes"]):
+                extra = [R.enc_avp(1, 0, 0x40, b"u" * sz).hex()] if sz else []
+                frames.append(W.build_msg({"k": "REQ", "host": "peer1.example", "hbh": 0x5000 + i, "e2e": 0x5000 + i, "extra": extra}))
+            stream = b"".join(frames)
+            w.feed(c, stream, [x for x in case["cuts"] if x < len(stream)])
+            w.advance(1)
+            got = [r["hbh"] for r in w.requests_seen]
+            exp = [0x5000 + i for i in range(len(frames))]
+            if got != exp:
+                rec.violation("C05/node-socket/delivery", case, f"application saw {got}, sent {exp}")
+            ans = [f.h["hbh"] for f in c.refresh() if not f.is_request and f.code == 272]
+            if ans != exp:
+                rec.violation("C05/node-socket/answers", case, f"answers {ans}, expected {exp}")
+            big = any(sz > 2048 for sz in case["sizes"])
+            rec.case(fp("ns", tuple(case["sizes"]), tuple(case["cuts"])), ["node-socket"] + (["node-socket:frame>2048"] if big else []),
+                     sample=lambda: case)
+        finally:
+            w.close()
+    hyp.run_given(node_case(), nbody, int((3000 if thorough else 250) * scale), derive_seed(PID, "node", shard), rec=rec)
     return rec.dump()
 
 
@@ -286,7 +326,7 @@ def run(tier, scale=1.0):
     for d in hyp.pool_run(shard_main, (tier, scale)):
         rec.merge(d)
     required = {"cut-in-header": 1, "read-spans-frames": 1, "garbage-then-valid": 1, "bad-length:zero": 1,
-                "bad-length:lt20": 1, "bad-length:short": 1, "bad-length:long": 1, "big-message": 1}
+                "bad-length:lt20": 1, "bad-length:short": 1, "bad-length:long": 1, "big-message": 1, "node-socket:frame>2048": 1}
     return finish(rec, tier=tier, level="exploration", rule=RULE, assumptions=ASSUME, t0=t0,
                   required_classes=required,
                   extra_cov={"exhaustive_part": "every 1-cut and (strided in quick, complete in thorough) 2-cut position of the short streams; every length-field value class x position x chunk mode"})
@@ -297,6 +337,9 @@ def replay(doc):
     pool = make_messages()
     case = doc["case"]
     frames = [reid(pool[n], i) for i, n in enumerate(case["msgs"])]
+    if case["kind"] == "node-socket":
+        print(f"[{PID}] replay of node-socket cases: re-run the check")
+        return 2
     if case["kind"] == "valid":
         run_stream(b"".join(frames), case["cuts"], frames, "exact", rec, case)
     elif case["kind"] == "garbage":
